@@ -178,9 +178,16 @@ func runC05(r *Report, rng *rand.Rand, thorough bool) {
 		val  pvalue
 	}
 	metas := map[string]meta{}
+	brokenPkg := map[string]bool{}
 	for _, loc := range paramLocs {
 		for _, fw := range Frameworks {
 			for _, c := range cells[loc] {
+				if st := lab.Status[cellPkg(fw, c)]; c.Kind == "styled" && !st.OK {
+					if name := cellPkg(fw, c); !brokenPkg[name] {
+						brokenPkg[name] = true
+						r.Violate("lab_package_broken:"+name, fmt.Sprintf("package %s does not build: generate error %q, compile error %q", name, st.GenerateError, trunc(st.CompileError, 400)), map[string]any{"framework": fw, "location": loc})
+					}
+				}
 				if c.Kind != "styled" || !lab.Status[cellPkg(fw, c)].OK {
 					continue
 				}
